@@ -500,7 +500,16 @@ def fam_mem(index):
 
 def corpus_c03(tier):
     n = 24 if tier == "quick" else 160
-    return fam_mem_fixed() + [fam_mem(i) for i in range(n)]
+    cases = fam_mem_fixed() + [fam_mem(i) for i in range(n)]
+    # "reading it never disturbs it": the same cell with one reader and with three readers (twins, K-step histories)
+    X, Y = V("x"), V("y")
+    for nm, data, en in (("basic", ["proj", X, "signal-M"], ["cmp", ">", Y, K(0)]), ("typed", ["bin", "*", X, K(2)], ["cmp", ">", Y, K(5)]), ("named", ["proj", X, "signal-M"], Y)):
+        mt = "signal-A" if nm == "typed" else "signal-M"
+        one = _mem_prog("a", data, en, mtype=mt, readers=1)["stmts"]
+        three = _mem_prog("b", data, en, mtype=mt, readers=3)["stmts"]
+        pairs = [{"a": {"stmts": three, "build": b, "label": "3 readers"}, "b": {"stmts": one, "build": b, "label": "1 reader"}, "tag": f"{b['tag']}/readers", "names": ["r0"]} for b in (OPT, NOOPT)]
+        cases.append({"id": f"mreaders-{nm}", "family": "fixed", "kind": "equiv", "pairs": pairs, "params": {"K": 4}})
+    return cases
 
 
 # ======================================================================================
@@ -1036,6 +1045,20 @@ def corpus_c12(tier):
         P = pick[kind[0]](2 * i)["stmts"]
         Q = pick[kind[1]](2 * i + 1)["stmts"]
         cases.append(_pq_case(f"pq-{i:04d}", P, Q, rnd, limit))
+    # k-tuples: P, Q, R together vs each alone
+    from .gen import rename_prog, shift_places
+
+    for ti, (a, b, c3) in enumerate((("fixed-op-+", "fixed-cond->=", "fixed-reuse"), ("fixed-same-type", "fixed-clamp", "fixed-int-var"))):
+        Pn, Qn, Rn = rename_prog(fx[a]["stmts"], "p_"), rename_prog(fx[b]["stmts"], "q_"), rename_prog(fx[c3]["stmts"], "r_")
+        Qn = [["input", s_[1], s_[2], s_[3] + 2000] if s_[0] == "input" else s_ for s_ in Qn]
+        Rn = [["input", s_[1], s_[2], s_[3] + 4000] if s_[0] == "input" else s_ for s_ in Rn]
+        merged = [Pn + Qn + Rn, Rn + Pn + Qn, [x for t in zip(Pn, Qn, Rn) for x in t] + Pn[min(len(Pn), len(Qn), len(Rn)):] + Qn[min(len(Pn), len(Qn), len(Rn)):] + Rn[min(len(Pn), len(Qn), len(Rn)):]]
+        pairs = []
+        for build in (OPT, NOOPT):
+            for mi, m in enumerate(merged):
+                for lab, alone in (("P", Pn), ("Q", Qn), ("R", Rn)):
+                    pairs.append({"a": {"stmts": m, "build": build, "label": f"PQR{mi}"}, "b": {"stmts": alone, "build": build, "label": lab}, "tag": f"{build['tag']}/m{mi}/{lab}"})
+        cases.append({"id": f"pqr-{ti}", "family": "pq", "kind": "equiv", "pairs": pairs, "params": {}})
     for i in range(max(2, n // 6)):
         rnd = random.Random(f"pqm-{i}")
         P = fam_mem(3000 + 2 * i)["stmts"]
